@@ -104,6 +104,9 @@ type c18Event struct {
 func (e c18Event) String() string {
 	switch e.Kind {
 	case "node":
+		if len(e.Rec.Notes) > 0 {
+			return fmt.Sprintf("node(%q,%d entries,%d notes)", e.Rec.Head, len(e.Rec.Names), len(e.Rec.Notes))
+		}
 		return fmt.Sprintf("node(%q,%d entries)", e.Rec.Head, len(e.Rec.Names))
 	case "error":
 		return "error(" + e.Err + ")"
@@ -322,7 +325,11 @@ func checkC18One(c c18Case, ctx *vCtx) *vFailure {
 			vFault("symlink: %v", err)
 		}
 		oddName = []string{dir + "/nodir/../f.yaml", dir + "/f.yaml/", "", dir + "/link/../f.yaml", dir + "//f.yaml", dir + "/./f.yaml", dir + "/other/../f.yaml"}[c.NameForm%7]
-		ctx.Labelf("odd-name-form=%d", c.NameForm%7)
+		if c.NameForm >= 7 {
+			// a name that does not exist although it looks like one that does (white space at an edge): no such file
+			oddName = []string{dir + "/f.yaml ", " " + dir + "/f.yaml", dir + "/f.yaml\n", dir + "/missing.yaml ", "\t" + dir + "/other/f.yaml"}[(c.NameForm-7)%5]
+		}
+		ctx.Labelf("odd-name-form=%d", c.NameForm%12)
 	}
 	closedPath := ""
 	if c.Input == "closed-file" {
@@ -632,7 +639,7 @@ func checkC18One(c c18Case, ctx *vCtx) *vFailure {
 	}
 	for i := range exp {
 		g, w := got[i], exp[i]
-		if g.Kind != w.Kind || g.Err != w.Err || g.Rec.Head != w.Rec.Head || strings.Join(g.Rec.Names, "\x00") != strings.Join(w.Rec.Names, "\x00") || fmt.Sprint(g.Rec.Values) != fmt.Sprint(w.Rec.Values) {
+		if g.Kind != w.Kind || g.Err != w.Err || g.Rec.Head != w.Rec.Head || strings.Join(g.Rec.Names, "\x00") != strings.Join(w.Rec.Names, "\x00") || fmt.Sprint(g.Rec.Values) != fmt.Sprint(w.Rec.Values) || fmt.Sprintf("%q", g.Rec.Notes) != fmt.Sprintf("%q", w.Rec.Notes) {
 			return vFailf("policy %s on %s: value %d is %s, expected %s (full: %s vs %s)", c.Policy, c.Input, i, g, w, c18Fmt(got), c18Fmt(exp))
 		}
 	}
@@ -680,6 +687,19 @@ func genC18(t *rapid.T) c18Case {
 			}
 			d.Recs = append(d.Recs, vRec{Head: vGenName(t, true, "head"), HL: vGenHeadLayout(t, lo, "hl"), Lines: lines})
 		}
+		if rapid.IntRange(0, 11).Draw(t, "widerec") == 0 {
+			// one record with hundreds of entries (and a note): longer than any slice a parser may grow in steps
+			ne := []int{171, 200, 213, 214, 342, 400, 554, 683, 900, 1007, 1136, 1500, 2000, 5000}[rapid.IntRange(0, 13).Draw(t, "wideren")]
+			plain := vLayout{Indent: "  ", Sep: ": ", EOL: "\n"}
+			var lines []vLine
+			for k := 0; k < ne; k++ {
+				lines = append(lines, vLine{Kind: vkEntry, Name: fmt.Sprintf("w%d", k), Num: fmt.Sprint(k % 97), L: plain})
+			}
+			at := rapid.IntRange(0, ne).Draw(t, "widerenote")
+			note := vLine{Kind: vkNote, Name: "place", Text: "home", L: vLayout{Indent: "  ", EOL: "\n"}}
+			lines = append(lines[:at], append([]vLine{note}, lines[at:]...)...)
+			d.Recs[rapid.IntRange(0, len(d.Recs)-1).Draw(t, "widerei")].Lines = lines
+		}
 		vDecorate(t, &d, lo, true, "deco")
 		switch {
 		case kind <= 4:
@@ -703,7 +723,7 @@ func genC18(t *rapid.T) c18Case {
 			c.Input = "missing-file"
 		default:
 			c.Input = []string{"file", "file", "fifo", "dash-file", "dash-missing", "odd-name", "odd-name"}[rapid.IntRange(0, 6).Draw(t, "filekind")]
-			c.NameForm = rapid.IntRange(0, 6).Draw(t, "nameform")
+			c.NameForm = rapid.IntRange(0, 11).Draw(t, "nameform")
 			if rapid.Bool().Draw(t, "bad") {
 				c09Plant(t, &d, 1, pool, "plant")
 			}
